@@ -50,12 +50,16 @@ TRUSTED = [
     '{"s": "SELF"}; World.pkey builds Key.SELF / the str, the driver PKey.self / PKey.str "SELF"; `_is_key` is written out in '
     'Model/TreeKey.lean (Python types of key objects, isinstance along Reserved<str and Index<int, == on key objects) and proved equal to the '
     'pattern matching of Model/Tree.lean (C18_reserved_vs_plain_model); modelled-not-verified: Reserved subclasses str with inherited __eq__/__hash__',
+    'a mapping key / path element that is some OTHER hashable object — a Key instance (a path used as a key: dict(view.items())), a tuple, a frozenset — '
+    'is the opaque atom {"o": n} on the wire, DKey.obj n / PKey.obj n in the model (wp-SC18c): ONE key, compared by ==; modelled-not-verified: these '
+    'objects are hashable, pairwise unequal in a case, `list[obj]` raises TypeError like `list[str]`; what is INSIDE a Key object is not modelled',
 ]
 ASSUMPTIONS = [
     'leaves are int/str/None; ndarrays are int64, 1-D to 3-D, C-contiguous (owning arrays and views of them); dict keys are '
     'str/int/Index/Literal objects (an Index and the equal int never in one dict; str keys of ANY spelling, the spellings of the reserved keys included; '
     'never a Reserved OBJECT, a bool or a float as a dict key of the input: 1 == True == 1.0 collide by value like Index(1) == 1 and are not modelled); '
-    'the view is built without key_paths',
+    'the view is built without key_paths; Key-object / tuple / frozenset dict keys come from a fixed pool of 11 pairwise unequal objects (a Key and the EQUAL '
+    'plain tuple are never both used), are never passed bare (a bare Key is a path, a bare tuple a multi-key) and never meet an ndarray (`arr[()]`)',
     'no cyclic input data (in-place sets never store an ancestor); ndarray elements are assigned ints only where the get/set law is claimed',
 ]
 RULE = ('heaps of <= ~25 cells (trees of depth <= 4 of dict/list/tuple with int/str/None/ndarray leaves, ~15% aliased '
@@ -83,6 +87,13 @@ RULE = ('heaps of <= ~25 cells (trees of depth <= 4 of dict/list/tuple with int/
         'items of the result / the same path with the RESERVED key swapped in / fresh paths through the spellings); the random arm again with 60% of the dicts keyed '
         'from the pool and 12% of the paths with one plain<->reserved swap. ENFORCED coverage (exit 2 otherwise): each of get / multi-key get / copying set / multi-key set / '
         "copy_and_update / in-place set / items / apply SUCCEEDED on an input root through a plain 'SELF' and through a plain 'SKIP' dict key at depth 0, 1 and >= 2; "
+        '(d) SC18c, mapping KEYS that are path-like OBJECTS (Key instances incl. Key() and a Key holding a Key, tuples, a frozenset; wire {"o": n}): fixed flattened '
+        "trees ({Key().a.b: 1, 'a': {'b': 2}} in both orders, dict(view.items()) shapes, below lists / tuples) with items / apply and every path of length <= 2 over key "
+        'objects and their flattened elements (copying set + read back + items + apply, read + in-place set + items); a directed arm cycling operation kind x class '
+        '(Key / tuple) x depth 0..3 (70%: the nested path the key SPELLS is a sibling; follow-ups: read-back, items / apply of the result, the flattened spelling read / '
+        'set, fresh paths through key objects); the random arm with 60% of the dicts holding such keys. ENFORCED coverage (exit 2 otherwise, only for a run without '
+        'violations): each of the 8 operation kinds SUCCEEDED through a Key-object key and through a tuple key at depth 0, 1 and >= 2; items and apply on a Key-object '
+        'key next to the nested path it spells; '
         'non-trivial = at least one successful copying set/update/apply on a container root of depth >= 2')
 
 
@@ -91,6 +102,44 @@ RULE = ('heaps of <= ~25 cells (trees of depth <= 4 of dict/list/tuple with int/
 def _tree():
   from ml_metrics._src.chainables import tree
   return tree
+
+
+def keyobjs(T):
+  """The OTHER hashable key objects of the cases (wire form {'o': n}; Lean `DKey.obj n` / `PKey.obj n`, an opaque atom):
+  `Key` instances — a path used as a MAPPING KEY, which the library itself produces (`dict(view.items())` is a flattened
+  tree keyed by Key objects) —, tuples, a frozenset.  Pairwise unequal (`Key(('a','b')) == ('a','b')`: a Key is a tuple).
+  As a mapping key / path element each of them is ONE element whatever is inside it (seeded change C18-m5:
+  `Key.at()` joining paths made `_dfs_iter_tree` list the flattened spelling)."""
+  K = T.Key
+  return [K().a.b, K(), K.new('a'), K.new(T.Index(0)), K().a.b.c, ('b', 'a'), ('a', 0), frozenset({'a'}), K.new('SELF'), ('p',),
+          K.new(K().a, 'b')]
+
+
+ATOM_CLASS = ['Key', 'Key', 'Key', 'Key', 'Key', 'tuple', 'tuple', 'frozenset', 'Key', 'tuple', 'Key']
+# the flattened spelling of a Key-object key (what joining instead of appending would list), as wire path elements
+ATOM_FLAT = {0: [{'s': 'a'}, {'s': 'b'}], 1: [], 2: [{'s': 'a'}], 3: [{'x': 0}], 4: [{'s': 'a'}, {'s': 'b'}, {'s': 'c'}],
+             8: [{'s': 'SELF'}], 10: [{'o': 2}, {'s': 'b'}]}
+
+
+def dcopy(o):
+  """copy.deepcopy; a `Key` instance cannot be deep-copied (`Key.__getattr__` answers every attribute, `__deepcopy__`
+  included, with a longer Key): then containers / arrays are copied and the (immutable) key objects and leaves kept."""
+  try:
+    return copy.deepcopy(o)
+  except TypeError:
+    pass
+
+  def rec(x):
+    if isinstance(x, dict):
+      return {k: rec(v) for k, v in x.items()}
+    if isinstance(x, list):
+      return [rec(v) for v in x]
+    if type(x) is tuple:
+      return tuple(rec(v) for v in x)
+    if isinstance(x, np.ndarray):
+      return x.copy()
+    return x
+  return rec(o)
 
 
 class World:
@@ -103,6 +152,7 @@ class World:
     self.objs = {}
     self.lits = {}          # literal id -> Literal object
     self.lit_of = {}        # id(Literal object) -> (lit id, value ref)
+    self.atoms = keyobjs(T)  # wire {'o': n}: the n-th OTHER hashable key object (Key instance, tuple, frozenset): ONE key
     for r in range(len(self.cells)):
       self.obj(r)
 
@@ -114,6 +164,8 @@ class World:
     return self.lits[lid]
 
   def dkey(self, k):
+    if 'o' in k:
+      return self.atoms[k['o']]
     if 's' in k:
       return k['s']
     if 'i' in k:
@@ -158,6 +210,8 @@ class World:
       return T.Key.SELF
     if k == 'SKIP':
       return T.Key.SKIP
+    if 'o' in k:
+      return self.atoms[k['o']]
     if 's' in k:
       return k['s']
     if 'x' in k:
@@ -170,7 +224,9 @@ class World:
 
   def path(self, p, bare=False):
     ks = [self.pkey(k) for k in p]
-    if bare and len(ks) == 1:
+    # a bare Key object IS a path and a bare tuple a multi-key for `__getitem__` / `set`: a key OBJECT of those types is
+    # only ever one path element inside a Key (never passed bare)
+    if bare and len(ks) == 1 and not isinstance(ks[0], (tuple, frozenset)):
       return ks[0]
     return self.T.Key(tuple(ks))
 
@@ -184,6 +240,12 @@ class World:
 
   def pkey_json(self, k):
     T = self.T
+    if isinstance(k, (tuple, frozenset)):      # a Key instance / tuple / frozenset used as ONE key (Key subclasses tuple)
+      for n, a in enumerate(self.atoms):
+        if type(a) is type(k) and a == k:
+          return {'o': n}
+      if not (type(k) is tuple and all(isinstance(x, int) and not isinstance(x, bool) for x in k)):
+        return {'?': repr(k)}
     if isinstance(k, T.Reserved):
       return str(k)
     if isinstance(k, T.Literal):
@@ -426,7 +488,7 @@ def node_paths(T, o, limit=60):
       out.append(pre)
     if isinstance(x, dict):
       for k, v in x.items():
-        if isinstance(k, (str, int)) and not isinstance(k, T.Reserved):
+        if norm_key(T, k) is not None:
           rec(v, pre + (k,))
     elif isinstance(x, (list, tuple)):
       for i, v in enumerate(x):
@@ -448,6 +510,12 @@ def norm_key(T, k):
     return ('s', str(k))
   if isinstance(k, int) and not isinstance(k, bool):
     return ('i', int(k))
+  # any other hashable key object is ONE key, compared by `==` (a Key instance is a tuple); a tuple of ints stays outside:
+  # below an ndarray it is a numpy multi-dimensional index (judged by `_array_set_law`)
+  if isinstance(k, frozenset):
+    return ('o', k)
+  if isinstance(k, tuple) and not (type(k) is tuple and all(isinstance(x, int) for x in k)):
+    return ('o', tuple(k))
   return None
 
 
@@ -531,7 +599,8 @@ def plain_dicts(o):
   for x in nodes(o).values():
     if isinstance(x, dict):
       for k in x:
-        if type(k) not in (str, int) and type(k).__name__ != 'Index':
+        # a Key instance / tuple / frozenset held as a dict key is an ordinary hashable key: ONE path element (SC18c)
+        if type(k) not in (str, int) and type(k).__name__ != 'Index' and not isinstance(k, (tuple, frozenset)):
           return False
   return True
 
@@ -640,8 +709,8 @@ def run_impl(case):
       if value is not None:
         nodes(value, before_nodes)
       snap_shallow = {k: shallow(o) for k, o in before_nodes.items()}
-      snap_deep = copy.deepcopy(root)
-      value_snap = copy.deepcopy(value) if in_place and isinstance(value, np.ndarray) else value   # a view of the written buffer
+      snap_deep = dcopy(root)
+      value_snap = dcopy(value) if in_place and isinstance(value, np.ndarray) else value   # a view of the written buffer
       view = view_for(op['root'], root)
       obs, res_root = {}, NOROOT
       new_view = None
@@ -1130,6 +1199,13 @@ def model_obs(case, resps):
 
 
 def compare(impl, model):
+  d = _compare(impl, model)
+  if d is not None:
+    _stat('verdict', 'disagreement')       # see `extra`: a coverage guard never masks a verdict
+  return d
+
+
+def _compare(impl, model):
   a, b = impl['ops'], model['ops']
   if len(a) != len(b):
     return f'{len(a)} vs {len(b)} observations'
@@ -1181,9 +1257,21 @@ def extra(ctx):
   # ENFORCED (infrastructure failure, not a verdict): every operation kind succeeded on a path through a plain str key
   # spelled 'SELF' and one spelled 'SKIP', at depth 0, 1 and >= 2 (seeded change C18-m3 lives exactly there)
   holes = [x for x in RESERVED_NEED if not _STATS.get('reserved-spelling', {}).get(x)]
-  if holes:
-    from harness.core import InfraError
-    raise InfraError(f'C18 generator missed promised classes (keys spelled like reserved keys): {holes}')
+  # ENFORCED likewise (SC18c; seeded change C18-m5): every operation kind succeeded through a Key-object key and through a
+  # tuple key at depth 0, 1 and >= 2; items / apply on a Key-object key lying next to the nested path it spells
+  holes2 = [x for x in KEYOBJ_NEED if not _STATS.get('key-object', {}).get(x)]
+  if holes or holes2:
+    msg = 'C18 generator missed promised classes' + \
+        (f' (keys spelled like reserved keys): {holes}' if holes else '') + \
+        (f' (mapping keys that are path-like objects): {holes2}' if holes2 else '')
+    # The classes count operations that SUCCEEDED: an implementation that is broken exactly there makes them fail, and
+    # the run then HAS its verdict (disagreements / oracle failures).  A coverage guard must never mask a verdict: the
+    # infrastructure failure is raised only for a run without any violation.
+    if _STATS.get('verdict'):
+      ctx.notes.append('coverage guard not enforced, the run has violations: ' + msg)
+    else:
+      from harness.core import InfraError
+      raise InfraError(msg)
 
 
 def _walk_ids(d, acc):
@@ -1331,6 +1419,8 @@ def _keyobj_stats(case, op, o, kind):
 
 
 def nontrivial(case, obs):
+  if obs.get('laws'):
+    _stat('verdict', 'oracle failure')
   for op, o in zip(case['ops'], obs['ops']):
     kind = 'inplace' if op.get('in_place') else op['op']
     if not o.get('skipped'):
@@ -1338,6 +1428,7 @@ def nontrivial(case, obs):
     if not o.get('skipped'):
       _nd_stats(case, op, o, kind)
       _reserved_stats(case, op, o, kind)
+      _atom_stats(case, op, o, kind)
     if o.get('skipped'):
       _stat('outcome', kind + ':skipped')
       continue
@@ -1416,9 +1507,13 @@ class Gen:
   SKEYS = ['a', 'b', 'c', 'SKIP']
   IKEYS = [0, 1, 5]
 
-  def __init__(self, rng, collide=0.0):
+  def __init__(self, rng, collide=0.0, atoms=0.0):
     self.rng = rng
     self.cells = []
+    # probability that a dict holds OTHER hashable key objects (wire {'o': n}: Key instances, tuples, a frozenset; SC18c).
+    # 0.0 = the generator of the earlier rounds, bit for bit (no extra draw).  With atoms: no ndarray leaves (`arr[()]`
+    # / `arr[Key()]` is numpy's empty multi-index, not a tree key).
+    self.atoms = atoms
     # probability that a dict draws its keys from COLLIDE_POOL (plain str keys that collide BY VALUE with the
     # reserved / special keys of tree.py).  0.0 = the generator of the earlier rounds, bit for bit (no extra draw).
     self.collide = collide
@@ -1433,7 +1528,7 @@ class Gen:
       return self.add({'t': 'int', 'v': self.rng.choice([0, 1, 2, 3, 7, 1000, -4])})
     if r < 0.70:
       return self.add({'t': 'str', 'v': self.rng.choice(['', 'x', 'yz'])})
-    if r < 0.88:
+    if r < 0.88 and not self.atoms:
       return self.add({'t': 'arr', 'v': self.rng.choice([[1, 2], [], [0], [5], [3, 4, 5]])})
     return self.add({'t': 'none'})
 
@@ -1454,6 +1549,10 @@ class Gen:
         pool[j] = {'x': pool[j]['i']}
       if self.collide and rng.random() < self.collide:
         pool = collide_pool(rng) + pool[3:]
+      if self.atoms and rng.random() < self.atoms:
+        ids = rng.sample(range(len(ATOM_CLASS)), rng.choice([1, 2, 2, 3]))
+        for j, a in zip(rng.sample(range(len(pool)), len(ids)), ids):
+          pool[j] = {'o': a}
       rng.shuffle(pool)
       es = [[pool[j], kids[j]] for j in range(n)]
       return self.add({'t': 'dict', 'es': es})
@@ -1480,7 +1579,7 @@ class Gen:
     rng = self.rng
     if 's' in k:
       return {'s': k['s']}
-    if 'l' in k:
+    if 'l' in k or 'o' in k:
       return dict(k)
     i = k.get('i', k.get('x'))
     if on_seq:
@@ -1561,8 +1660,8 @@ class Gen:
     return p, 'existing', cur
 
 
-def make_case(rng, malformed=False, depth=None, collide=0.0):
-  g = Gen(rng, collide)
+def make_case(rng, malformed=False, depth=None, collide=0.0, atoms=0.0):
+  g = Gen(rng, collide, atoms)
   depth = rng.choice([1, 2, 3, 3, 4]) if depth is None else depth
   r = rng.random()
   if r < 0.05:
@@ -2278,6 +2377,254 @@ RESERVED_NEED = [f'{name}: through plain {sp!r} at depth {d}' for name in RESERV
                  for d in ('0', '1', '2+')]
 
 
+# ----------------------------------------------------------------------------- SC18c: key OBJECTS that are path-like
+# A mapping KEY that is itself a path-like object — a `Key` instance (the library produces such dicts: `dict(view.items())`
+# is a flattened tree), a tuple, a frozenset — is ONE path element whatever its type (seeded change C18-m5: `Key.at()`
+# joining paths; `_dfs_iter_tree` builds every leaf path with `parent.at(k)`).  Wire form {'o': n} (`keyobjs`).
+
+KEYOBJ_KINDS = ['get', 'multiget', 'set', 'multiset', 'update', 'inplace', 'items', 'apply']
+KEYOBJ_CLASSES = ['Key', 'tuple']
+
+
+def _flat_sibling(g, rng, a):
+  """Entries that make the FLATTENED spelling of the Key-object key `a` a real nested path next to it (the two leaves are
+  distinct and must be listed / read / mapped separately): {Key().a.b: 1, 'a': {'b': 2}}."""
+  flat = ATOM_FLAT.get(a)
+  if not flat:
+    return []
+  cur = g.add({'t': 'int', 'v': rng.choice([201, 202, 203])})
+  for k in reversed(flat[1:]):
+    cur = g.add({'t': 'dict', 'es': [[dict(k), cur]]})
+  return [[dict(flat[0]), cur]]
+
+
+def make_keyobj_case(rng, i):
+  """Directed arm (SC18c): a tree with a dict that holds a Key-object / tuple KEY at a chosen depth (0..3 keys above it:
+  dict / list / tuple levels, dict levels keyed by such objects too), siblings next to it — with probability 0.7 a sibling
+  sub-tree that spells the FLATTENED path of the key —, a random subtree below it, and a first operation of a chosen kind
+  (get / multi-key get / copying set / multi-key set / copy_and_update / in-place set / items / apply) whose path goes
+  THROUGH that key on the input root; then reads / items / apply of the result, the flattened spelling of the same path,
+  fresh paths through key objects.  `i` cycles kind x class x depth."""
+  kind = KEYOBJ_KINDS[i % len(KEYOBJ_KINDS)]
+  cls = KEYOBJ_CLASSES[(i // len(KEYOBJ_KINDS)) % 2]
+  depth = (i // (2 * len(KEYOBJ_KINDS))) % 4
+  g = Gen(rng, atoms=0.5)
+  a = rng.choice([n for n, c in enumerate(ATOM_CLASS) if c == cls])
+  under = g.node(rng.choice([0, 1, 1, 2]), alias=0.0)
+  es = [[{'o': a}, under]]
+  used = [{'o': a}]
+  if rng.random() < 0.7:
+    for k, v in _flat_sibling(g, rng, a):
+      es.append([k, v])
+      used.append(k)
+  for c in [{'o': n} for n in rng.sample(range(len(ATOM_CLASS)), 2)] + [{'s': 'a'}, {'s': 'b'}, {'i': 0}]:
+    if rng.random() < 0.45 and c not in used and not (c == {'i': 0} and {'x': 0} in used):
+      es.append([c, g.node(rng.choice([0, 1]), alias=0.0)])
+      used.append(c)
+  sib_keys = used[1:]
+  rng.shuffle(es)
+  cur = g.add({'t': 'dict', 'es': es})
+  pre = []
+  for _ in range(depth):
+    how = rng.choice(['dict', 'dict', 'list', 'tuple'])
+    if how == 'dict':
+      cands = [{'o': n} for n in rng.sample(range(len(ATOM_CLASS)), 3)] + [{'s': 'a'}, {'s': 'm'}, {'i': 1}]
+      k = rng.choice(cands)
+      others = [kk for kk in cands if kk != k][:rng.randrange(0, 3)]
+      es2 = [[k, cur]] + [[kk, g.leaf()] for kk in others]
+      rng.shuffle(es2)
+      cur = g.add({'t': 'dict', 'es': es2})
+      pre.insert(0, g.dkey_to_pkey(k, False))
+    else:
+      n_before = rng.randrange(0, 3)
+      rs = [g.leaf() for _ in range(n_before)] + [cur] + [g.leaf() for _ in range(rng.randrange(0, 2))]
+      cur = g.add({'t': how, 'rs': rs})
+      pre.insert(0, {'x': n_before} if rng.random() < 0.8 else {'i': n_before})
+  root = cur
+  through = pre + [{'o': a}]
+  below, reached = [], under
+  for _ in range(5):                 # frame / get-set laws: no negative index
+    b, rr = g.existing_path(under, maxlen=2)
+    if not any(isinstance(k, dict) and k.get('x', 0) < 0 for k in b):
+      below, reached = b, rr
+      break
+  P = through + (below if rng.random() < 0.6 else [])
+  flatP = pre + copy.deepcopy(ATOM_FLAT.get(a, [{'o': a}, {'o': a}]))     # the flattened spelling: ANOTHER path
+  sibs = [pre + [g.dkey_to_pkey(k, False)] for k in sib_keys] or [pre + [{'s': 'fresh'}]]
+  Q = rng.choice(sibs)
+  scal = [g.add({'t': 'int', 'v': v}) for v in (61, 62)] + [g.add({'t': 'str', 'v': 'NEW'}), g.add({'t': 'none'})]
+  sub = g.add({'t': 'dict', 'es': [[{'o': rng.randrange(len(ATOM_CLASS))}, scal[0]], [{'s': 'p'}, scal[1]]]})
+  val = rng.choice(scal + [sub])
+  tup = g.add({'t': 'tuple', 'rs': [val, scal[1]]})
+  uniq = g.add({'t': 'list', 'rs': [g.add({'t': 'int', 'v': 77})]})
+  ops = []
+  if kind == 'get':
+    ops.append({'op': rng.choice(['get', 'getd']), 'root': root, 'keys': {'path': P}})
+  elif kind == 'multiget':
+    ops.append({'op': rng.choice(['get', 'get', 'getd']), 'root': root, 'keys': {'multi': [P, Q] if rng.random() < 0.5 else [Q, P, through]},
+                'bare': False, 'aslist': rng.random() < 0.2})
+  elif kind == 'set':
+    op = {'op': 'set', 'root': root, 'keys': {'path': P}, 'value': val, 'in_place': False}
+    if rng.random() < 0.3:      # set-same: the value is the object the path reads now
+      op['value'] = reached if P != through else under
+      op['same'] = True
+    ops.append(op)
+  elif kind == 'multiset':
+    ops.append({'op': 'set', 'root': root, 'keys': {'multi': [P, Q]}, 'value': tup, 'in_place': False, 'bare': False,
+                'aslist': rng.random() < 0.2})
+  elif kind == 'update':
+    ops.append({'op': 'update', 'root': root, 'pairs': [[P, val], [Q, scal[1]]] if rng.random() < 0.6 and Q != P else [[P, val]],
+                'asdict': rng.random() < 0.5})
+  elif kind == 'inplace':
+    ops.append({'op': 'set', 'root': root, 'keys': {'path': P}, 'value': rng.choice(scal[:3] + [uniq]), 'in_place': True})
+  elif kind == 'items':
+    ops.append({'op': 'items', 'root': root})
+  else:
+    ops.append({'op': 'apply', 'root': root, 'fn': rng.choice(['inc', 'wrap', 'pair', 'const', 'id'])})
+  res = {'res': 0} if kind in ('set', 'multiset', 'update', 'apply') else root
+  for _ in range(rng.randrange(1, 4)):
+    r = rng.random()
+    if r < 0.25:
+      ops.append({'op': 'get', 'root': res, 'keys': {'path': P}})
+    elif r < 0.45:
+      ops.append({'op': 'items', 'root': res})
+    elif r < 0.6:       # the flattened spelling is another path: read it / set it, then iterate
+      if rng.random() < 0.5:
+        ops.append({'op': 'get', 'root': root, 'keys': {'path': flatP}})
+      else:
+        ops.append({'op': 'set', 'root': root, 'keys': {'path': flatP}, 'value': scal[0], 'in_place': False})
+        ops.append({'op': 'items', 'root': {'res': len(ops) - 1}})
+    elif r < 0.75:      # a fresh path through key objects (`_default_tree` stores them as they are)
+      q = through[:rng.randrange(len(through))] + [{'s': 'nn'}] + [{'o': n} for n in rng.sample(range(len(ATOM_CLASS)), rng.randrange(1, 3))] + \
+          ([{'s': 'x'}] if rng.random() < 0.5 else [])
+      ops.append({'op': 'set', 'root': root, 'keys': {'path': q}, 'value': scal[1], 'in_place': False})
+      ops.append({'op': 'get', 'root': {'res': len(ops) - 1}, 'keys': {'path': q}})
+    elif r < 0.85:
+      ops.append({'op': 'get', 'root': res, 'keys': {'multi': [Q, P]}, 'bare': False})
+    else:
+      ops.append({'op': 'apply', 'root': res, 'fn': rng.choice(['inc', 'wrap', 'const'])})
+  return {'strict': False, 'heap': g.cells, 'root': root, 'ops': ops[:6]}
+
+
+def flattened_tree_cases():
+  """The library's own flattened trees: `dict(view.items())` of fixed nested trees is a dict keyed by Key objects
+  (here the keys Key().a.b, Key.new('a'), Key().a.b.c, Key.new(Index(0)), Key() of the pool), alone and next to the nested
+  tree they spell; every path of length <= 2 over key objects and their flattened elements."""
+  I = lambda v: {'t': 'int', 'v': v}
+  trees = [
+      # {Key().a.b: 1, 'a': {'b': 2}}
+      ([I(1), I(2), {'t': 'dict', 'es': [[{'s': 'b'}, 1]]}, {'t': 'dict', 'es': [[{'o': 0}, 0], [{'s': 'a'}, 2]]}], 3),
+      # {'a': {'b': 2}, Key().a.b: 1}   (the other order)
+      ([I(1), I(2), {'t': 'dict', 'es': [[{'s': 'b'}, 1]]}, {'t': 'dict', 'es': [[{'s': 'a'}, 2], [{'o': 0}, 0]]}], 3),
+      # flat = dict(TreeMapView({'a': {'b': 1, 'c': 2}}).items()) shape: {Key().a.b: 1, Key().a.b.c: 2, Key.new('a'): 3}
+      ([I(1), I(2), I(3), {'t': 'dict', 'es': [[{'o': 0}, 0], [{'o': 4}, 1], [{'o': 2}, 2]]}], 3),
+      # {'m': {Key().a.b: 10, 'z': [20, {Key.new('a'): 30}]}}
+      ([I(10), I(20), I(30), {'t': 'dict', 'es': [[{'o': 2}, 2]]}, {'t': 'list', 'rs': [1, 3]},
+        {'t': 'dict', 'es': [[{'o': 0}, 0], [{'s': 'z'}, 4]]}, {'t': 'dict', 'es': [[{'s': 'm'}, 5]]}], 6),
+      # {Key(): 1, 'a': 2}, [{Key.new(Index(0)): 1, Index-keyed sibling}], tuple keys
+      ([I(1), I(2), {'t': 'dict', 'es': [[{'o': 1}, 0], [{'s': 'a'}, 1]]}], 2),
+      ([I(1), I(2), {'t': 'dict', 'es': [[{'o': 3}, 0], [{'i': 0}, 1]]}, {'t': 'list', 'rs': [2]}], 3),
+      ([I(1), I(2), I(3), {'t': 'dict', 'es': [[{'o': 5}, 0], [{'o': 6}, 1], [{'o': 9}, 2]]}, {'t': 'tuple', 'rs': [3]},
+        {'t': 'dict', 'es': [[{'o': 7}, 4], [{'o': 10}, 0]]}], 5),
+  ]
+  alphabet = [{'o': 0}, {'o': 1}, {'o': 2}, {'o': 5}, {'s': 'a'}, {'s': 'b'}, {'x': 0}]
+  for cells, root in trees:
+    n = len(cells)
+    base = copy.deepcopy(cells) + [{'t': 'int', 'v': 99}]
+    yield {'strict': False, 'heap': copy.deepcopy(base), 'root': root, 'ops': [
+        {'op': 'items', 'root': root}, {'op': 'apply', 'root': root, 'fn': 'inc'}, {'op': 'items', 'root': {'res': 1}},
+        {'op': 'apply', 'root': root, 'fn': 'wrap'}, {'op': 'apply', 'root': root, 'fn': 'id'}]}
+    for p in [[a] for a in alphabet] + [[a, b] for a in alphabet for b in alphabet]:
+      yield {'strict': False, 'heap': copy.deepcopy(base), 'root': root, 'ops': [
+          {'op': 'set', 'root': root, 'keys': {'path': p}, 'value': n, 'in_place': False},
+          {'op': 'get', 'root': {'res': 0}, 'keys': {'path': p}},
+          {'op': 'items', 'root': {'res': 0}},
+          {'op': 'apply', 'root': {'res': 0}, 'fn': 'inc'}]}
+      yield {'strict': False, 'heap': copy.deepcopy(base), 'root': root, 'ops': [
+          {'op': 'get', 'root': root, 'keys': {'path': p}},
+          {'op': 'set', 'root': root, 'keys': {'path': p}, 'value': n, 'in_place': True},
+          {'op': 'items', 'root': root}]}
+
+
+def _atom_depths(heap, r, acc, d=0, seen=None):
+  """(class, depth, collides) of every key-object dict key below cell r (depth = number of keys above it); `collides`:
+  the dict also holds the first element of the key's flattened spelling (the flattened path may exist)."""
+  seen = set() if seen is None else seen
+  if (r, d) in seen or d > 8:
+    return acc
+  seen.add((r, d))
+  c = heap[r]
+  if c['t'] == 'dict':
+    for k, v in c['es']:
+      if 'o' in k:
+        flat = ATOM_FLAT.get(k['o']) or [None]
+        acc.add((ATOM_CLASS[k['o']], min(d, 2), any(dk == flat[0] for dk, _ in c['es'])))
+      _atom_depths(heap, v, acc, d + 1, seen)
+  elif c['t'] in ('list', 'tuple'):
+    for v in c['rs']:
+      _atom_depths(heap, v, acc, d + 1, seen)
+  return acc
+
+
+def _through_atoms(heap, r, p):
+  """[(class, depth)] of the key-object dict keys that the path `p`, walked on the input heap from cell r, goes through
+  (the key must be an entry of the dict it meets)."""
+  out = []
+  for d, k in enumerate(p):
+    c = heap[r]
+    nxt = None
+    if not isinstance(k, dict):
+      break
+    if c['t'] == 'dict':
+      for dk, v in c['es']:
+        if dk == k or (('i' in dk or 'x' in dk) and ('i' in k or 'x' in k) and dk.get('i', dk.get('x')) == k.get('x', k.get('i'))):
+          nxt = v
+      if nxt is not None and 'o' in k:
+        out.append((ATOM_CLASS[k['o']], min(d, 2)))
+    elif c['t'] in ('list', 'tuple') and ('x' in k or 'i' in k):
+      j = k.get('x', k.get('i'))
+      if -len(c['rs']) <= j < len(c['rs']):
+        nxt = c['rs'][j]
+    if nxt is None:
+      break
+    r = nxt
+  return out
+
+
+def _atom_stats(case, op, o, kind):
+  """Coverage of the class 'mapping keys that are path-like objects': which operation kinds SUCCEEDED on an input root
+  with a path through such a key (items / apply: the tree holds one), per class and depth."""
+  if not isinstance(op.get('root'), int) or o.get('err') is not None or o.get('skipped'):
+    return
+  heap, r = case['heap'], op['root']
+  if kind in ('items', 'apply'):
+    if kind == 'apply' and op.get('fn') in ('none', 'id'):
+      return
+    for cls, d, coll in _atom_depths(heap, r, set()):
+      _stat('key-object', f'{kind}: {cls} key at depth {d if d < 2 else "2+"}')
+      if coll and cls == 'Key':
+        _stat('key-object', f'{kind}: Key key next to the nested path it spells')
+    return
+  if kind == 'update':
+    ps, name = [p for p, _ in op['pairs']], 'update'
+  elif op.get('keys') == 'empty' or 'keys' not in op:
+    return
+  else:
+    ps = keys_paths(op['keys'])
+    multi = 'multi' in op['keys']
+    name = {'get': 'multiget' if multi else 'get', 'getd': 'multiget' if multi else 'get',
+            'set': 'multiset' if multi else 'set', 'inplace': 'inplace'}.get(kind)
+    if name is None or o.get('default'):
+      return
+  for p in ps:
+    for cls, d in _through_atoms(heap, r, p):
+      _stat('key-object', f'{name}: {cls} key at depth {d if d < 2 else "2+"}')
+
+
+KEYOBJ_NEED = [f'{name}: {cls} key at depth {d}' for name in KEYOBJ_KINDS for cls in KEYOBJ_CLASSES for d in ('0', '1', '2+')] + \
+              [f'{name}: Key key next to the nested path it spells' for name in ('items', 'apply')]
+
+
 def gen_cases(ctx):
   for c in ctx.corpus():
     yield c
@@ -2326,6 +2673,21 @@ def gen_cases(ctx):
   for _ in range(1500 if ctx.quick else 25000):
     ctx.count('stage', 'ndarray deep paths + tuple keys')
     yield make_deep_arr_case(rng)
+  # --- SC18c: mapping keys that are path-like OBJECTS (Key instances, tuples, a frozenset) — ONE path element each
+  n = 0
+  for c in flattened_tree_cases():
+    n += 1
+    yield c
+  ctx.count('stage', 'key-object flattened trees (fixed + exhaustive paths)', n)
+  for i in range(1440 if ctx.quick else 24000):
+    ctx.count('stage', 'key-object directed')
+    yield make_keyobj_case(rng, i)
+  for i in range(1200 if ctx.quick else 20000):
+    case, feats = make_case(rng, malformed=(i % 10 == 0), atoms=0.6)
+    for f in feats:
+      ctx.count('op(key-object keys)', f)
+    ctx.count('stage', 'key-object random (dicts holding Key / tuple / frozenset keys)')
+    yield case
 
 
 def neighbours(case, rng):
